@@ -281,31 +281,56 @@ class ImplTimeout(BaseException):
     pass
 
 
+_IMPL_DIR = os.path.dirname(os.path.abspath(F.__file__)) + os.sep
+
+
 class Watch:
-    """Interrupts the implementation after `seconds`; keeps firing (OP_TRY_EXCEPT catches BaseException)."""
+    """Interrupts the implementation after `seconds`; keeps firing (OP_TRY_EXCEPT catches BaseException).
+    The SIGVTALRM handler is installed once per process and raises only while a Watch is active, so a late signal
+    that arrives while the with-block is being left cannot escape into the harness (it used to kill a pool worker
+    and hang the pool)."""
     fired = False
+    active = False
+    installed = False
 
     def __init__(self, seconds=float(os.environ.get('VERIF_CASE_TIMEOUT', '8'))):
         self.seconds = seconds
 
+    @staticmethod
+    def _handler(sig, frame):
+        if not Watch.active:
+            return
+        Watch.fired = True
+        # raise only into the implementation: if no frame of the tapescript package is on the stack the harness
+        # itself is running (e.g. leaving the with-block) and must not be interrupted
+        f = frame
+        while f is not None:
+            if f.f_code.co_filename.startswith(_IMPL_DIR):
+                raise ImplTimeout()
+            f = f.f_back
+
     def __enter__(self):
         Watch.fired = False
-
-        def handler(sig, frame):
-            Watch.fired = True
-            raise ImplTimeout()
         try:
-            self.old = signal.signal(signal.SIGALRM, handler)
-            signal.setitimer(signal.ITIMER_REAL, self.seconds, 0.02)
+            if not Watch.installed:
+                signal.signal(signal.SIGVTALRM, Watch._handler)
+                Watch.installed = True
+            Watch.active = True
+            signal.setitimer(signal.ITIMER_VIRTUAL, self.seconds, 0.02)    # CPU time of this process: machine load cannot fire it
             self.armed = True
         except ValueError:          # not in the main thread
             self.armed = False
         return self
 
     def __exit__(self, et, ev, tb):
+        Watch.active = False         # first: from here on the handler is silent
         if self.armed:
-            signal.setitimer(signal.ITIMER_REAL, 0, 0)
-            signal.signal(signal.SIGALRM, self.old)
+            while True:
+                try:
+                    signal.setitimer(signal.ITIMER_VIRTUAL, 0, 0)
+                    break
+                except ImplTimeout:
+                    continue
         return et is ImplTimeout     # swallow our own exception
 
 
